@@ -475,3 +475,36 @@ class RegexEscapePlaceholder(Contract):
         except SigmaPlaceholderError:
             return None
         return f"regular expression foo%user%bar.* with the placeholder user unresolved, escape(escaped={values['escaped']}, escape_escape_char={values['escape_escape_char']}) renders {out!r}"
+
+
+@register
+class JqResultsToValues(Contract):
+    """ExternalSourceBaseTransformation._jq_results_to_values (json / yaml sources of the file / http / command placeholder items): every
+    scalar the expression selects becomes a replacement value - also 0, false and the empty text; only null is skipped; a container is a
+    configuration error ("exactly the configured replacements")"""
+    id = "C17.ExternalSourceBaseTransformation._jq_results_to_values"
+    target = "sigma.processing.transformations.external:ExternalSourceBaseTransformation._jq_results_to_values"
+    props = ("C17", "C12")
+    cases = ("falsy scalars", "mixed", "only null", "empty", "container")
+    DATA = {"falsy scalars": [0, False, "", 0.0], "mixed": ["a", 0, None, 22, "", 443, None, True, 1.5], "only null": [None, None], "empty": [], "container": ["a", {"k": 1}]}
+
+    def args(self, I, case):
+        return {"self": ClassRef(I.E.index.lookup("sigma.processing.transformations.external:ExternalSourceBaseTransformation")), "args": [list(self.DATA[case])], "case": case}
+
+    def post(self, I, inp, r):
+        case = inp["case"]
+        I.ctx.require(case != "container", "a selected container is rejected")
+        want = [str(v) for v in self.DATA[case] if v is not None]
+        got = [I.force(x) for x in (r if isinstance(r, list) else I.force(r))]
+        I.ctx.require(got == want, f"one value per selected scalar, in order, nothing but null skipped: {want} (got {got})")
+
+    def raises(self, I, inp, exc):
+        I.ctx.require(inp["case"] == "container" and exc_is(I, exc, "SigmaConfigurationError"), f"SigmaConfigurationError exactly for a container (got {exc_name(exc)})")
+
+    def frame_ok(self, I, inp, obj, name):
+        return False
+
+    def replay(self, values):
+        from sigma.processing.transformations.external import ExternalSourceBaseTransformation
+        got = ExternalSourceBaseTransformation._jq_results_to_values(["a", 0, None, False, ""])
+        return None if got == ["a", "0", "False", ""] else f"_jq_results_to_values(['a', 0, None, False, '']) == {got}, expected ['a', '0', 'False', '']"
